@@ -36,6 +36,7 @@ func injectFailures(r *rng.R, s *spec.Spec, e *Env, timeoutPct int) map[string]s
 			t.Checks = append(t.Checks, spec.Check{Marker: m, Shape: rng.Pick(r, []string{"", "and"})})
 			t.Untouch, t.UntouchIf = m, "markers/break_"+t.Name
 			kinds[t.Label()] = "failing-output-check(broken-by-the-command)"
+			addPassingChecks(r, t)
 		case 0:
 			t.FailIf = "markers/fail_" + t.Name
 			kinds[t.Label()] = "exit-nonzero"
@@ -54,10 +55,19 @@ func injectFailures(r *rng.R, s *spec.Spec, e *Env, timeoutPct int) map[string]s
 		case 2:
 			t.Checks = append(t.Checks, spec.Check{Marker: "markers/ok_" + t.Name, Shape: rng.Pick(r, []string{"", "", "and", "nosete"})})
 			kinds[t.Label()] = "failing-output-check"
+			addPassingChecks(r, t)
 		case 3:
 			t.SleepIf = "markers/slow_" + t.Name
 			t.Timeout = "3s"
 			kinds[t.Label()] = "timeout"
+			switch r.Intn(4) {
+			case 0:
+				t.TrapExit0 = true // answers SIGTERM with exit 0
+				kinds[t.Label()] = "timeout(shell-exits-0-on-TERM)"
+			case 1:
+				t.TrapTerm = true // ignores SIGTERM
+				kinds[t.Label()] = "timeout(shell-ignores-TERM)"
+			}
 		default:
 			t.FailIf = "markers/fail_" + t.Name
 			kinds[t.Label()] = "exit-nonzero"
@@ -72,6 +82,26 @@ func injectFailures(r *rng.R, s *spec.Spec, e *Env, timeoutPct int) map[string]s
 	return kinds
 }
 
+// addPassingChecks surrounds a failing check with checks that pass (before it, after it, or
+// both): every check counts, not the first or the last one.
+func addPassingChecks(r *rng.R, t *spec.Target) {
+	mk := func(j int) spec.Check {
+		c := spec.Check{Marker: fmt.Sprintf("markers/pass%d_%s", j, t.Name), Shape: rng.Pick(r, []string{"", "and"})}
+		if r.Chance(1, 3) {
+			c.Expected = "ok"
+		}
+		return c
+	}
+	switch r.Intn(4) {
+	case 0:
+		t.Checks = append(t.Checks, mk(1))
+	case 1:
+		t.Checks = append([]spec.Check{mk(1)}, t.Checks...)
+	case 2:
+		t.Checks = append(append([]spec.Check{mk(1)}, t.Checks...), mk(2))
+	}
+}
+
 func setFailureMarkers(e *Env, s *spec.Spec, failing bool) {
 	for _, t := range s.Targets {
 		if t.FailIf != "" {
@@ -84,8 +114,8 @@ func setFailureMarkers(e *Env, s *spec.Spec, failing bool) {
 			e.SetMarker(t.SleepIf, failing)
 		}
 		for _, c := range t.Checks {
-			if c.Marker == t.Untouch {
-				e.SetMarker(c.Marker, true) // holds when the build starts; the command breaks it
+			if c.Marker == t.Untouch || strings.HasPrefix(c.Marker, "markers/pass") {
+				e.SetMarker(c.Marker, true) // holds when the build starts (the command may break it)
 				continue
 			}
 			e.SetMarker(c.Marker, !failing)
@@ -146,6 +176,38 @@ func FailurePatternPart(run *report.Run, st *Setup, n int, stream string, judge 
 			run.Count("injected_failure_kind:"+k, 1)
 		}
 		env.Logf("failing: %v fail_fast=%v", fl, failFast)
+		// In half of the histories the cache is warmed first by a build in which nothing fails:
+		// every failing target then has a cached result for exactly its current state and only
+		// executes because it is tainted (or its command changed). A failed execution must
+		// neither consume the taint nor fall back to the older result.
+		if r.Chance(1, 2) {
+			setFailureMarkers(env, s, false)
+			if _, obs, vs, err := env.Step(BuildOpts{}, BuildCfg{EnableCache: true}, "warm", false); err != nil || len(vs) > 0 || obs.Res.Exit != 0 {
+				run.Count("histories_abandoned(warming build diverged)", 1)
+				return
+			}
+			var tl []string
+			for l := range kinds {
+				if r.Chance(2, 3) {
+					tl = append(tl, l)
+				} else {
+					t := s.Target(l)
+					env.Apply(func() string { t.Salt = r.Word(4, 8); return "command-change" })
+				}
+			}
+			sort.Strings(tl)
+			if len(tl) > 0 {
+				if env.RunTaint(tl).Exit != 0 {
+					run.Infra("grog taint failed")
+					return
+				}
+				for _, l := range tl {
+					env.Taint[l] = true
+				}
+			}
+			run.Count("histories_with_warm_cache_and_tainted_failing_targets", 1)
+			setFailureMarkers(env, s, true)
+		}
 		report1 := func(v Violation, obs *Obs) {
 			keep = !run.Violation(v.Sig, v.What, mkReplay(i, env, obs)) || keep
 		}
